@@ -151,18 +151,64 @@ _CLAMPS = re.compile(r"::(saturating_sub|saturating_add|saturating_sub_unsigned|
 _CMP = ("Lt", "Le", "Gt", "Ge", "Eq", "Ne")
 
 
+def _element_accesses(ctx, b):
+    """[(block in b, callee, index operand in b, receiver operand in b)] -- element accesses made in
+    b itself, and those made inside a closure handed to an Option adaptor whose item is the index
+    (`resolve(..).and_then(|p| list.get_mut(p))`: the index is the adaptor's receiver, the
+    sequence is what the closure captured)"""
+    out = []
+    for i, t in b.calls():
+        if b.bbs[i]["cleanup"]:
+            continue
+        if _ELEM_ACCESS.match(t["f"] or "") and len(t["a"]) >= 2:
+            out.append((i, t["f"], t["a"][1], t["a"][0]))
+        if t.get("clos") and re.search(r"Option::<.*>::(and_then|map|filter_map|map_or|map_or_else|is_some_and)(::<.*>)?$", t["f"] or "") and t["a"]:
+            for cl in t["clos"]:
+                cb = ctx.prog.bodies.get(cl)
+                if cb is None:
+                    continue
+                # the closure aggregate in b and its captured operands
+                caps = None
+                for a in t["a"]:
+                    if op_is_const(a):
+                        continue
+                    for kind, bbi, x in prov.build_defs(b).get(op_place(a)["l"], ()):
+                        if kind == "stmt" and x["r"]["k"] == "agg" and x["r"]["a"] == "closure:" + cl:
+                            caps = x["r"]["o"]
+                for j, tt in cb.calls():
+                    if not _ELEM_ACCESS.match(tt["f"] or "") or len(tt["a"]) < 2 or op_is_const(tt["a"][1]):
+                        continue
+                    Pi = prov.operand_origins(cb, tt["a"][1])
+                    if not (Pi.params() - {1}):
+                        continue          # the index is not the closure's item
+                    recv = None
+                    Pr = prov.operand_origins(cb, tt["a"][0]) if not op_is_const(tt["a"][0]) else None
+                    if Pr is not None and caps:
+                        for r_ in Pr.roots:
+                            if r_[0] == "upvar":
+                                k = None
+                                try:
+                                    import json as _j
+                                    for e_ in _j.loads(r_[1]):
+                                        if isinstance(e_, dict) and "f" in e_ and str(e_["f"]).isdigit():
+                                            k = int(e_["f"]); break
+                                except Exception:
+                                    k = None
+                                if k is not None and k < len(caps):
+                                    recv = caps[k]
+                    out.append((i, tt["f"], t["a"][0], recv))
+    return out
+
+
 def single_index_sites(ctx, fn, b):
-    """[(block, callee, n_calls_on_flow, clamps, related)] for element accesses of stored sequences
-    in b whose index derives from a signed integer parameter"""
+    """[(block, callee, n_calls_on_flow, clamps, related, receiver operand)] for element accesses of
+    sequences in b whose index derives from a signed integer parameter"""
     import flow
     out = []
     sparams = [l for l in range(1, b.nargs + 1) if re.match(r"^(isize|i64|i32|i128)$", b.locals[l] or "")]
     if not sparams:
         return out
-    for i, t in b.calls():
-        if not _ELEM_ACCESS.match(t["f"] or "") or b.bbs[i]["cleanup"] or len(t["a"]) < 2:
-            continue
-        idx = t["a"][1]
+    for i, f, idx, recv in _element_accesses(ctx, b):
         if op_is_const(idx):
             continue
         P = prov.operand_origins(b, idx, deep=True)
@@ -180,7 +226,7 @@ def single_index_sites(ctx, fn, b):
                     has_len = any(q.has_call(r"::len$") for q in Q)
                     if has_p and has_len:
                         related = True
-        out.append((i, t["f"], len(calls), clamps, related))
+        out.append((i, f, len(calls), clamps, related, recv))
     return out
 
 
@@ -197,8 +243,8 @@ def rule_idx_single(ctx, R):
         b = ctx.prog.bodies.get(fn)
         if b is None or not fn.startswith("storage::") or "::tests::" in fn or b.kind == "Closure":
             continue
-        for i, f, ncalls, clamps, related in single_index_sites(ctx, fn, b):
-            if not shared.from_dataset(b, b.term(i)["a"][0]):
+        for i, f, ncalls, clamps, related, recv in single_index_sites(ctx, fn, b):
+            if recv is None or op_is_const(recv) or not shared.from_dataset(b, recv):
                 continue
             n += 1
             R.inst(fn, "element-access:%s" % shared.short_callee(f), {"function": fn, "at": b.loc(i), "calls_on_the_index_flow": ncalls, "clamping": [shared.short_callee(c) for c, _, _ in clamps][:3], "range_comparison_dominates": related})
